@@ -244,6 +244,18 @@ theorem outer_rec {motive : Nat → Bool → W → Run W α → Prop}
           exact restart iter dd w h1 _ hr (by omega)
             (ih (iterMax - ((coreRun c iterMax iter h1 dd w).iter + 1)) (by omega) _ h3 _ _ rfl)
 
+/-- number of `computeResidual` calls in a trace -/
+def residualCount : List (Event W α) → Nat
+  | [] => 0
+  | .residual _ _ _ _ :: l => residualCount l + 1
+  | _ :: l => residualCount l
+
+theorem residualCount_append (l₁ l₂ : List (Event W α)) :
+    residualCount (l₁ ++ l₂) = residualCount l₁ + residualCount l₂ := by
+  induction l₁ with
+  | nil => simp [residualCount]
+  | cons a l ih => cases a <;> simp [residualCount, ih] <;> omega
+
 /-- list helper: an element that is not in the suffix `t` of `pre ++ t` is followed by all of `t` -/
 theorem split_before_tail {β : Type} (pre t a b : List β) (x : β) (hx : x ∉ t)
     (h : pre ++ t = a ++ x :: b) : ∃ b₁, b = b₁ ++ t := by
